@@ -254,6 +254,9 @@ func c13Bound(c c13Case) time.Duration {
 	if c13Stalls >= 3 && b > 300*time.Millisecond {
 		b = 300 * time.Millisecond // several stalls already recorded: keep the run short
 	}
+	if c13Stalls >= 12 && b > 60*time.Millisecond {
+		b = 60 * time.Millisecond
+	}
 	return b
 }
 
